@@ -2,6 +2,16 @@
 # writes seeded/<id>/meta.json from run.json (produced by seedtest.sh) + the hand-written "needs" text
 import json, sys, os
 NEEDS = {
+ "C03-c": "FailoverOf only: ctxSync decides on 'has stale value' instead of the read error, so an entry expired beyond MaxStaleness is rebuilt in the background and the too-stale value is served with nil error (needs MaxStaleness>0, entry beyond it, SyncUpdate=false)",
+ "C06-c": "detachedContext embeds the parent context: Deadline() of the caller leaks into the background build (needs stale value, SyncUpdate=false, caller context with a deadline)",
+ "C08-c": "sharded backends with LRU/LFU: Write updates an existing entry in place; a concurrent Read of an expired entry that already holds the pointer reports the new value as stale (needs LFU/LRU, expired entry, overlapping Read and Write)",
+ "C09-c": "Failover key locks keyed by xxhash64(key) instead of the key string: two different keys with the same hash share a build lock and a waiter gets the other key's value/error (needs a hash collision and overlapping Gets)",
+ "C10-c": "Trait.TTL returns 0 when the config is UnlimitedTTL and the context carries a TTL (inverted condition): per-call TTLs are ignored on unlimited caches",
+ "C11-c": "deleteExpired of the sharded backends replaces the shard's map when deleted == number of survivors: fresh/never-expiring entries sharing a shard with as many long-expired ones are lost (needs two keys in one shard)",
+ "C12-c": "heap/sys overflow checks merged: with exactly one memory limit configured the unset one is compared against 0 and every cycle evicts (needs exactly one of HeapInUseSoftLimit/SysMemSoftLimit set, not breached)",
+ "C14-c": "Import appends '&name='+name to a pre-encoded query: cache names with query-reserved characters (+ & = % space) reach the exporter as a different name (nothing imported, or another cache's entries imported)",
+ "C17-c": "elapsed time rounded to seconds before the SkipInterval comparison: a call in the last half second of the interval is accepted (needs SkipInterval >= 500ms and that timing)",
+ "C18-c": "cache_build counted after buildFunc returns instead of in a defer: a builder that panics (caller recovers) is not counted",
  "C01-b": "MaxStaleness > 0, entry expired for longer than MaxStaleness, and a second Get arriving while the first is inside its synchronous build: the waiter falls through and builds too (overlapping builds)",
  "C02-a": "key-lock objects recycled through a free list: a waiter still holding the old lock object reads val/err of the NEXT build of another key (needs 3 Gets / 2 keys with a specific interleaving)",
  "C02-b": "SyncRead=true, the owner's re-read under the key lock hits a fresh value (written by a previous owner) while a waiter is parked on the lock: the owner returns without publishing keyLock.val, the waiter returns (nil, nil)",
